@@ -243,8 +243,8 @@ def contract_factory(quick, seed):
                     V("rule-called-with-wrong-arguments", [ans, list(args), kw], [k * S * S, [onp.asarray(v).tolist() for v in vals], o["kw"]])
                     break
         extra = set(called) - set(o["diff"])
-        if extra:
-            V("rule-invoked-for-undifferentiated-argument", sorted(extra), sorted(o["diff"]))
+        if extra:   # harmless (an implementation may build rules eagerly); recorded, not judged
+            res["counts"]["rule-also-invoked-for-undifferentiated-argument"] = 1
         return res
 
     return h, judge
